@@ -231,7 +231,7 @@ def run(tier, out, replay=None):
 def op_of_label(label):
     name, args = graph.parse_action(label)
     m = {"DoSetItem": "setitem", "DoAugAdd": "augadd", "DoIAdd": "iadd", "DoISub": "isub", "DoUpdate": "update",
-         "DoIMul": "imul", "DoIAddScalar": "iadd_scalar", "DoIMulScalar": "imul_scalar", "DoClear": "clear",
+         "DoIMul": "imul", "DoIAddScalar": "iadd_scalar", "DoIMulScalar": "imul_scalar", "DoISubScalar": "isub_scalar", "DoIDiv": "idiv", "DoClear": "clear",
          "DoRefresh": "refresh", "DoCopy": "copy", "DoAddCons": "addcons", "DoToEnum": "toenum"}
     if name == "DoIPow":
         return ["ipow", args[0], 2]
